@@ -677,7 +677,7 @@ func init() {
 		Config: func(any) simrt.Config {
 			return simrt.Config{MaxSteps: 200000, IdleProbe: 4 * time.Second, ClockJumpPM: 4}
 		},
-		Runs: clientRuns(40000, 4000000),
+		Runs: clientRuns(150000, 8000000),
 		Floors: []Floor{
 			{Name: "single-server-fault", Count: func(t string) int { return len(c08FaultFloor(t)) }, Scenario: func(t string, i int) any { return c08FaultFloor(t)[i] }},
 			{Name: "single-preemption", Sweep: true, Count: func(t string) int { return len(c08SweepFloor(t)) }, Scenario: func(t string, i int) any { return c08SweepFloor(t)[i] }},
